@@ -519,7 +519,27 @@ impl Worker {
             return;
         }
 
-        if write_offset as usize + events_size > writer_set.segment_size
+        // With compression on, an incompressible record is stored slightly larger than its
+        // input (4 bytes original size + zstd's worst-case expansion), so the space needed in
+        // the live segment can exceed `events_size` by a few bytes per event.
+        let worst_case_size = if writer_set.compression {
+            events_size
+                + events
+                    .iter()
+                    .map(|event| {
+                        let record_len = EVENT_HEADER_SIZE
+                            + event.stream_id.len()
+                            + event.event_name.len()
+                            + event.metadata.len()
+                            + event.payload.len();
+                        4 + 64 + record_len / 256
+                    })
+                    .sum::<usize>()
+        } else {
+            events_size
+        };
+
+        if write_offset as usize + worst_case_size > writer_set.segment_size
             && let Err(err) = writer_set.rollover()
         {
             let _ = reply_tx.send(Err(err));
